@@ -653,3 +653,27 @@ func TestD31_AbsentValueKeepsTheChunkKey(t *testing.T) {
 		t.Errorf("NextAbsentValue(5) on [0,65537) = %d, want 65537", v)
 	}
 }
+
+// #32 C02: a range that starts at or beyond 2^32 is empty: RemoveRange must leave the bitmap alone.
+func TestD32_RemoveRangeBeyondTheUniverse(t *testing.T) {
+	b := roaring.BitmapOf(1, 2, 3, 1<<20, 0xFFFFFFFF)
+	b.RemoveRange(1<<32, 1<<32+1)
+	if b.GetCardinality() != 5 {
+		t.Fatalf("RemoveRange(2^32, 2^32+1) left %d of 5 values", b.GetCardinality())
+	}
+	b.RemoveRange(1<<32+3, 1<<32+10)
+	if b.GetCardinality() != 5 {
+		t.Fatalf("RemoveRange(2^32+3, 2^32+10) left %d of 5 values", b.GetCardinality())
+	}
+}
+
+// #33 C03: CardinalityInRange of a range beyond 2^32 is 0.
+func TestD33_CardinalityInRangeBeyondTheUniverse(t *testing.T) {
+	b := roaring.BitmapOf(1, 2, 3, 1<<20, 0xFFFFFFFF)
+	if n := b.CardinalityInRange(1<<32, 1<<32+5); n != 0 {
+		t.Fatalf("CardinalityInRange(2^32, 2^32+5) = %d, want 0", n)
+	}
+	if n := b.CardinalityInRange(1<<32+2, 1<<33); n != 0 {
+		t.Fatalf("CardinalityInRange(2^32+2, 2^33) = %d, want 0", n)
+	}
+}
